@@ -632,3 +632,67 @@ def intdigits(repo):
         res.samples.append(f"limit lifted in {found}")
     res.analysed = ["compiler/front_end/glue.py"] + sorted(imported)[:0]
     return res
+
+
+def sharederr(repo):
+    """R-SHAREDERR (C16): every pass hands one `errors` list to all of its per-node functions.  A function that *receives*
+    that list may append to it, but whether it finishes its own node must not depend on what other nodes reported: with
+    `if not errors:` a reference is silently left unresolved once anything -- including an error at a synthetic
+    location, which glue.process_ir hides and survives -- was reported earlier in the pass, and the next pass
+    dereferences the unresolved reference.  Accepted: a comparison of `len(errors)` with a length the function recorded
+    itself.  Second clause: an error group is hidden as soon as one of its messages has a synthetic location, so a
+    function of symbol_resolver that turns a list of candidate locations into notes skips the synthetic ones (the
+    built-in `this`), otherwise the only error of the pass disappears."""
+    res = RuleResult("R-SHAREDERR")
+    mods = [m for m in repo.compile_path_modules() if m.rel.startswith(("compiler/front_end/", "compiler/util/", "compiler/back_end/"))]
+    for m in mods:
+        for f in m.funcs.values():
+            params = {a.arg for a in f.node.args.args + f.node.args.kwonlyargs}
+            if "errors" not in params:
+                continue
+            res.instances += 1
+            recorded = set()
+            for n in walk_no_nested_funcs(f.node):
+                if isinstance(n, ast.Assign) and len(n.targets) == 1 and isinstance(n.targets[0], ast.Name) \
+                        and ast.unparse(n.value) == "len(errors)":
+                    recorded.add(n.targets[0].id)
+            for n in walk_no_nested_funcs(f.node):
+                test = n.test if isinstance(n, (ast.If, ast.While, ast.IfExp, ast.Assert)) else None
+                if test is None:
+                    continue
+                for x in ast.walk(test):
+                    bad = None
+                    if isinstance(x, ast.UnaryOp) and isinstance(x.op, ast.Not) and isinstance(x.operand, ast.Name) and x.operand.id == "errors":
+                        bad = "not errors"
+                    elif isinstance(x, ast.Compare) and "len(errors)" in ast.unparse(x):
+                        others = [ast.unparse(c) for c in [x.left] + x.comparators if ast.unparse(c) != "len(errors)"]
+                        if not all(o in recorded for o in others):
+                            bad = ast.unparse(x)
+                    if bad is None and x is test and isinstance(x, ast.Name) and x.id == "errors":
+                        bad = "errors"
+                    if bad is None and isinstance(x, ast.BoolOp) and any(isinstance(v, ast.Name) and v.id == "errors" for v in x.values):
+                        bad = "errors"
+                    if bad:
+                        res.add(f"{m.rel}|{f.qualname}|{bad}", f"{f.qualname} tests the shared error list (`{bad}`) to decide how to treat its "
+                                "own node: after an earlier (possibly hidden, synthetic) error elsewhere in the pass the node is left "
+                                "unfinished without a diagnostic, and later passes dereference it", m.rel, n.lineno, f.qualname)
+                        break
+    sr = repo.mod("compiler/front_end/symbol_resolver.py")
+    nnote = 0
+    for f in sr.top_funcs():
+        for n in walk_no_nested_funcs(f.node):
+            if isinstance(n, ast.For) and any(isinstance(c, ast.Call) and (call_name(c) or "") == "error.note" for c in ast.walk(n)):
+                itn = {x.id for x in ast.walk(n.iter) if isinstance(x, ast.Name)}
+                if not (itn & {a.arg for a in f.node.args.args}):
+                    continue
+                nnote += 1
+                res.instances += 1
+                if "is_synthetic" not in ast.unparse(n):
+                    res.add(f"{sr.rel}|{f.name}|synthetic-note", f"{f.name} turns every candidate location into a note; a candidate with a "
+                            "synthetic location (the built-in `this` against `import ... as this`) makes error.split_errors hide the "
+                            "whole group, the reference stays unresolved and dependency_checker ends in AttributeError",
+                            sr.rel, n.lineno, f.name)
+    if nnote < 1:
+        raise AnalysisError("symbol_resolver: no function builds notes from a list of candidate locations")
+    res.analysed = sorted(m.rel for m in mods)
+    return res
